@@ -67,19 +67,24 @@ def dynamic_jobs(tier, seed, prop):
     if prop in BASE_PROPS:
         for n in corpus.names():
             jobs.append(exh(("corpus_dict", n)))
-        for n in ["fw_asym", "deny", "two_public", "user_only", "two_layer", "name_clash"]:
+        for n in ["fw_asym", "deny", "two_public", "user_only", "two_layer", "name_clash", "unordered_chain", "twins"]:
             jobs.append(exh(("corpus_yaml", n)))
         jobs.append(exh(("bench_yaml", "tiny")))
         if quick:
             jobs.append(rnd(("bench_yaml", "medium-multi-site"), 500, seed + 1))
             jobs.append(rnd(("bench_gen", "small-gen", seed % 50), 700, seed + 2))
             jobs.append(rnd(("bench_yaml", "tiny-small"), 700, seed + 3))
+            jobs.append(rnd(gen_src("dvsum", seed % 50, num_hosts=12, num_services=2, host_discovery_value=3,
+                                    r_sensitive=10, r_user=4, base_host_value=0.5), 500, seed + 6))
             if prop in ("C07", "C14"):
                 # numpy's own generator draws (seeded by the harness), the draw is recorded, not scripted
-                jobs.append(rnd(("bench_yaml", "tiny"), 1500, seed + 4, record_draws=True, extras=False))
-                jobs.append(rnd(("corpus_dict", "os_mix"), 1500, seed + 5, record_draws=True, extras=False))
+                # (one environment per process, so that nothing else draws from the global generator)
+                jobs.append(rnd(("bench_yaml", "tiny"), 1500, seed + 4, record_draws=True, extras=False,
+                                modes=((False, True, True),)))
+                jobs.append(rnd(("corpus_dict", "os_mix"), 1500, seed + 5, record_draws=True, extras=False,
+                                modes=((True, False, False),)))
     elif prop == "C09":
-        for n in ["os_mix", "chain", "fw_asym", "two_public"]:
+        for n in ["os_mix", "chain", "fw_asym", "two_public", "unordered_chain"]:
             jobs.append(exh(("corpus_dict", n)))
         jobs.append(exh(("corpus_yaml", "deny")))
         jobs.append(exh(("bench_yaml", "tiny")))
@@ -88,7 +93,7 @@ def dynamic_jobs(tier, seed, prop):
     elif prop == "C10":
         for n in ["two_public", "os_mix"]:
             jobs.append(exh(("corpus_dict", n), modes=ALL_MODES))
-        for n in ["fw_asym", "deny", "chain", "user_only"]:
+        for n in ["fw_asym", "deny", "chain", "user_only", "unordered_chain"]:
             jobs.append(exh(("corpus_dict", n)))
         jobs.append(exh(("bench_yaml", "tiny"), modes=ALL_MODES))
         jobs.append(rnd(("bench_yaml", "small-honeypot"), 600, seed + 1, modes=ALL_MODES))
@@ -116,7 +121,8 @@ def dynamic_jobs(tier, seed, prop):
                             modes=ALL_MODES if (prop in ("C10", "C12") and n.startswith("tiny")) else replay_default()))
         if prop in ("C07", "C14"):
             for i, n in enumerate(["tiny", "tiny-small", "small", "medium"]):
-                jobs.append(rnd(("bench_yaml", n), 8000, seed + 300 + i, record_draws=True, extras=False))
+                jobs.append(rnd(("bench_yaml", n), 8000, seed + 300 + i, record_draws=True, extras=False,
+                                modes=((bool(i % 2), True, True),)))
         if prop in BASE_PROPS:
             for n in ["medium", "medium-single-site"]:
                 jobs.append(dict(src=("bench_yaml", n), spec_only=True, workers=8, timeout=7200))
